@@ -270,6 +270,11 @@ func gNameAddr(rt *rapid.T, label string, o naOpts) ANameAddr {
 		}
 	}
 	n.Params = gParamList(rt, label+".params", o.maxParams, hdrParamValAlpha, hdrParamReserved)
+	if o.maxParams > 0 && rapid.IntRange(0, 4).Draw(rt, label+".quotedparam") == 0 {
+		// gen-value = token / host / quoted-string: a quoted value may hold '=', SP, ':' ...
+		q := rapid.SampledFrom([]string{`"k=v"`, `"a b"`, `"x=1=2"`, `""`, `"=="`, `"sip:u@h:5060"`, `"tag=zz"`}).Draw(rt, label+".quotedvalue")
+		n.Params = gInsertParam(rt, label+".quotedpos", n.Params, AParam{K: gFromAlphabet(rt, label+".qk", tokAlpha+"-", 1, 6) + "q", V: q, HasV: true})
+	}
 	if o.tag != nil {
 		if *o.tag != "" {
 			n.Params = gInsertParam(rt, label+".tagpos", n.Params, AParam{K: "tag", V: *o.tag, HasV: true})
